@@ -68,8 +68,23 @@ func runReal(bin string, w *bsim.World, root string) (realResult, error) {
 	for _, d := range w.Dirs {
 		_ = os.MkdirAll(in(d), 0755)
 	}
-	for _, f := range w.Files {
+	for fi, f := range w.Files {
 		_ = os.MkdirAll(filepath.Dir(in(f.Path)), 0755)
+		if f.Kind == "link" {
+			store := filepath.Join(root, "store")
+			_ = os.MkdirAll(store, 0755)
+			target := filepath.Join(store, fmt.Sprintf("f%d.data", fi))
+			if err := os.WriteFile(target, []byte(f.Content), 0644); err != nil {
+				return rr, err
+			}
+			if err := os.Symlink(target, in(f.Path)); err != nil {
+				return rr, err
+			}
+			continue
+		}
+		if f.Kind != "" {
+			return rr, fmt.Errorf("not re-enactable")
+		}
 		if err := os.WriteFile(in(f.Path), []byte(f.Content), 0644); err != nil {
 			return rr, err
 		}
@@ -160,7 +175,7 @@ func confirmReal(s *prep.Scratch, v *bsim.Violation) (string, string) {
 		dim = sig[:i]
 	}
 	switch dim {
-	case "env", "cwd", "keyorder", "run-from", "previous-output", "map", "file-metadata":
+	case "env", "cwd", "keyorder", "run-from", "previous-output", "map", "file-metadata", "linked-inputs":
 	default:
 		return "n/a", ""
 	}
